@@ -15,7 +15,7 @@ namespace Influx.Meta
 open Influx.Generated.Meta
 
 /-- the model's wall clock (2033-05-18): later than every cutoff the generators use -/
-def modelNow : Time := 2000000000000000000
+def modelNow : Int := 2000000000000000000
 
 structure State where
   data : Data
@@ -30,21 +30,21 @@ deriving Repr, DecidableEq
 
 inductive Op where
   /-- create database (if missing) and retention policy; `raw` overwrites the normalised duration -/
-  | rp (db rp : String) (sgd : Dur) (raw : Bool)
-  | csg (db rp : String) (t : Time)
+  | rp (db rp : String) (sgd : Int) (raw : Bool)
+  | csg (db rp : String) (t : Int)
   /-- `MapShards` with `now − Duration = cutoff` (`none`: no retention duration) -/
-  | ms (db rp : String) (cutoff : Option Time) (ts : List Time)
+  | ms (db rp : String) (cutoff : Option Int) (ts : List Int)
   | dump (db rp : String)
   | restart
-  | find (db rp : String) (t : Time)
-  | range (db rp : String) (tmin tmax : Time)
+  | find (db rp : String) (t : Int)
+  | range (db rp : String) (tmin tmax : Int)
   | del (db rp : String) (id : Nat)
   /-- `ExpiredShardGroups(t)` of the policy with `Duration := D` -/
-  | exp (db rp : String) (D : Dur) (t : Time)
+  | exp (db rp : String) (D : Int) (t : Int)
   | store (f : StoreField) (ids : List Nat)
   /-- `DeletionCheck` with `now − Duration = cutoff` for the listed policies, `Duration = 0` elsewhere -/
-  | dc (cutoffs : List (String × String × Time))
-  | setdel (db rp : String) (id : Nat) (at_ : Time)
+  | dc (cutoffs : List (String × String × Int))
+  | setdel (db rp : String) (id : Nat) (at_ : Int)
   | dropshard (id : Nat)
 deriving Repr
 
@@ -65,7 +65,7 @@ def fullDump (d : Data) : List (String × String × List ShardGroupInfo) :=
 
 /-- harness op `rp`: `Data.CreateDatabase` (if missing) + `Data.CreateRetentionPolicy` with
     `ReplicaN = 1, Duration = 0`, then (raw) the exact shard group duration -/
-def opRP (d : Data) (db rp : String) (sgd : Dur) (raw : Bool) : Except Err Data :=
+def opRP (d : Data) (db rp : String) (sgd : Int) (raw : Bool) : Except Err Data :=
   let d1 : Data := if (findDB d db).isSome then d else
     { d with Databases := d.Databases ++ [{ Name := db, DefaultRetentionPolicy := "", RetentionPolicies := [] }] }
   let n := NormalisedShardDuration sgd 0
@@ -88,7 +88,7 @@ def opRP (d : Data) (db rp : String) (sgd : Dur) (raw : Bool) : Except Err Data 
       fin { d1 with Databases := d1.Databases.map fun x => if x.Name == db then di' else x }
 
 /-- set `Duration` of one policy (no-op when it does not exist) -/
-def setDuration (d : Data) (db rp : String) (D : Dur) : Data :=
+def setDuration (d : Data) (db rp : String) (D : Int) : Data :=
   match getRP d db rp with
   | .ok r => setRP d db rp { r with Duration := D }
   | .error _ => d
@@ -97,7 +97,7 @@ def clearDurations (d : Data) : Data :=
   { d with Databases := d.Databases.map fun di =>
       { di with RetentionPolicies := di.RetentionPolicies.map fun r => { r with Duration := 0 } } }
 
-def setDeletedAt (d : Data) (db rp : String) (id : Nat) (t : Time) : Data :=
+def setDeletedAt (d : Data) (db rp : String) (id : Nat) (t : Int) : Data :=
   match getRP d db rp with
   | .ok r => setRP d db rp { r with ShardGroups := r.ShardGroups.map fun g => if g.ID == id then { g with DeletedAt := t } else g }
   | .error _ => d
@@ -123,7 +123,7 @@ def step (s : State) : Op → State × Obs
     | .ok (d, g) => ({ s with data := d }, .group g)
     | .error e => (s, .err e)
   | .ms db rp cutoff ts =>
-    let D : Dur := match cutoff with
+    let D : Int := match cutoff with
       | some a => modelNow - a
       | none => 0
     let d0 := setDuration s.data db rp D
